@@ -1,12 +1,224 @@
-import JediModel.Model.Nesting
+import JediModel.Lemmas.Nesting
 import JediModel.Gen.C18
+/-! # C18 — get_context, parent() and full_name describe the lexical nesting
+
+`getContext`, `parentChain`, `fullNameOfLeaf` are jedi's algorithms, `enclosers` /
+`innermostBody` / `defChain` / `qualname` the Python side, all over the positioned scope table
+`Nesting.NProg`.  Property theorems only. -/
 namespace JediModel.Props.C18
 open JediModel.Nesting
+open JediModel.Scopes (Kind)
 
-def WF (p : NProg) : Bool := true
-def ContextHyp (p : NProg) (pos : Pos) : Bool := true
-def ChainHyp (p : NProg) (i : Nat) : Bool := true
+theorem walkUp_hit {p : NProg} {c : Nat} {sc : NScope} (col : Nat) (hs : p.scopes[c]? = some sc)
+    (hd : (sc.kind == Kind.function || sc.kind == Kind.klass) = true) (hcol : sc.start.col < col) :
+    ∀ f, 0 < f → walkUp p col f c = .ok c := by
+  intro f hf
+  cases f with
+  | zero => omega
+  | succ f =>
+    unfold walkUp
+    rw [hs]
+    have hm : (sc.kind == Kind.module) = false := by
+      cases hk : sc.kind <;> simp [hk] at hd ⊢
+    simp [hm, hd, hcol]
 
-theorem placeholder : True := trivial
+/-- **Tree form.**  On a well-formed table, for a position on a leaf (not in a prefix) such that
+every enclosing definition starts left of the position's column and no lambda on the way up sits
+directly in a class body (`LeafHyp`), `get_context` is the innermost `def` / `class` around the
+leaf that starts before the position — the module if there is none. -/
+theorem context_eq_chain (p : NProg) (hwf : WF p = true) (pos : Pos) (i : Nat) (l : Leaf)
+    (hi : chooseLeaf p pos = .ok i) (hl : p.leaves[i]? = some l) (hyp : LeafHyp p pos l = true) :
+    getContext p pos = .ok (firstDefBefore p pos (defChain p p.fuel l.pscope)) := by
+  unfold WF at hwf
+  simp only [Bool.and_eq_true] at hwf
+  obtain ⟨hS, hL⟩ := hwf
+  have hmem : l ∈ p.leaves := List.mem_of_getElem? hl
+  -- the leaf's facts
+  have hlp : l.pscope < p.scopes.length := by
+    have := hS
+    unfold WFS at this
+    simp only [Bool.and_eq_true, List.all_eq_true, decide_eq_true_eq] at this
+    exact this.2 l hmem
+  unfold WFL at hL
+  simp only [Bool.and_eq_true, List.all_eq_true] at hL
+  obtain ⟨hLs, hLl⟩ := hL
+  have hleaf := hLl l hmem
+  obtain ⟨hW5, hW9⟩ := hleaf
+  unfold LeafHyp at hyp
+  simp only [Bool.and_eq_true, decide_eq_true_eq, Bool.or_eq_true] at hyp
+  obtain ⟨⟨⟨hon1, hon2⟩, hnd⟩, hseg⟩ := hyp
+  have hfuel : p.fuel = p.scopes.length + 1 := rfl
+  unfold getContext contextAt
+  rw [hi]
+  simp only
+  rw [hl]
+  simp only
+  unfold contextOfLeaf
+  cases hh : headerOf p pos l with
+  | some n =>
+    simp only
+    -- the header rule fired: n is the head of the chain and starts before pos
+    unfold headerOf at hh
+    rw [defFrom_eq_head] at hh
+    cases hhd : (defChain p p.fuel l.pscope).head? with
+    | none => simp [hhd] at hh
+    | some n' =>
+      rw [hhd] at hh
+      simp only at hh
+      cases hsn : p.scopes[n']? with
+      | none => simp [hsn] at hh
+      | some scn =>
+        rw [hsn] at hh
+        simp only at hh
+        split at hh
+        · rename_i hcond
+          simp only [Option.some.injEq] at hh
+          subst hh
+          obtain ⟨rest, hrest⟩ : ∃ rest, defChain p p.fuel l.pscope = n' :: rest := by
+            cases hc : defChain p p.fuel l.pscope with
+            | nil => simp [hc] at hhd
+            | cons a rest => simp [hc] at hhd; subst hhd; exact ⟨rest, rfl⟩
+          have hdef := mem_defChain_isDef p p.fuel l.pscope n' (by rw [hrest]; simp)
+          obtain ⟨sc', hsc', hkd⟩ := isDef_scope hdef
+          rw [hsn] at hsc'
+          simp only [Option.some.injEq] at hsc'
+          subst hsc'
+          have hst : startLt p pos n' = true := by simp [startLt, hsn, hcond.1]
+          have hcol : scn.start.col < pos.col := by
+            rw [hrest] at hnd
+            simp only [noDedent, List.all_cons, Bool.and_eq_true, hsn] at hnd
+            simpa [hcond.1] using hnd.1
+          rw [hrest, firstDefBefore_cons_hit hst]
+          exact walkUp_hit pos.col hsn hkd hcol _ (by rw [hfuel]; omega)
+        · simp at hh
+  | none =>
+    simp only
+    have hsegOK : lamSegOK p p.fuel l.pscope = true := by
+      rcases hseg with h1 | h1
+      · rw [hh] at h1; simp at h1
+      · exact h1
+    -- the header rule did not fire for the head of the chain
+    have hnofire : ∀ n scn, (defChain p p.fuel l.pscope).head? = some n → p.scopes[n]? = some scn →
+        ¬ (scn.start < pos ∧ pos ≤ scn.suite) := by
+      intro n scn h1 h2 hc
+      unfold headerOf at hh
+      rw [defFrom_eq_head, h1] at hh
+      simp only [h2] at hh
+      rw [if_pos hc] at hh
+      simp at hh
+    have hs : p.scopes[l.pscope]? = some p.scopes[l.pscope] := List.getElem?_eq_getElem hlp
+    unfold createContext scopeOfNode
+    rw [hs]
+    simp only
+    by_cases hop : ((p.scopes[l.pscope].kind == Kind.function || p.scopes[l.pscope].kind == Kind.klass) &&
+        decide (l.start < p.scopes[l.pscope].colon) && !l.isParamName) = true
+    · -- a header leaf: one scope up
+      rw [if_pos hop]
+      simp only [Bool.and_eq_true, decide_eq_true_eq, Bool.not_eq_true'] at hop
+      obtain ⟨⟨hkd, hcolon⟩, _⟩ := hop
+      have hisdef : p.isDef l.pscope = true := by
+        unfold NProg.isDef; rw [kind_of_scope hs]; exact hkd
+      have hkne : p.kind l.pscope ≠ .module := by
+        rw [kind_of_scope hs]
+        intro hc; rw [hc] at hkd; simp at hkd
+      have hchain : defChain p p.fuel l.pscope = l.pscope :: defChain p p.fuel (p.pscope l.pscope) := by
+        rw [defChain_eq hS _ hlp]
+        rw [kind_of_scope hs]
+        cases hk : p.scopes[l.pscope].kind <;> simp [hk] at hkd ⊢
+      -- the leaf ends inside the header, so pos is not after the header
+      have hW5' : l.stop ≤ p.scopes[l.pscope].suite := by
+        rw [hs] at hW5
+        simp only [hkd, Bool.not_true, Bool.false_or, Bool.or_eq_true, Bool.not_eq_true',
+          decide_eq_false_iff_not, decide_eq_true_eq] at hW5
+        rcases hW5 with h1 | h1
+        · exact absurd hcolon h1
+        · exact h1
+      have hnf := hnofire l.pscope _ (by rw [hchain]; rfl) hs
+      have hnotlt : ¬ (p.scopes[l.pscope].start < pos) := by
+        intro hc
+        apply hnf
+        refine ⟨hc, ?_⟩
+        simp only [Pos.le_def] at hon2 hW5' ⊢
+        omega
+      have hmiss : startLt p pos l.pscope = false := by simp [startLt, hs, hnotlt]
+      rw [hchain, firstDefBefore_cons_miss hmiss]
+      have hpl := WFS.pscope_lt hS hkne
+      rw [← pscope_of_scope hs]
+      -- the parent of a def/class is a def/class or the module
+      have hpk : p.kind (p.pscope l.pscope) ≠ .comp := by
+        rcases WFS.def_parent hS hisdef with h1 | h1
+        · rw [h1]; simp
+        · unfold NProg.isDef at h1
+          intro hc; rw [hc] at h1; simp at h1
+      rw [fromScope_noncomp _ hpk, skipComps_noncomp hpk]
+      have hplam : lamSegOK p p.fuel (p.pscope l.pscope) = true := by
+        rw [lamSegOK_eq hS _ (by omega)]
+        rcases WFS.def_parent hS hisdef with h1 | h1
+        · rw [h1]
+        · unfold NProg.isDef at h1
+          cases hk : p.kind (p.pscope l.pscope) <;> simp [hk] at h1 ⊢
+      have hnd' : noDedent p pos (defChain p p.fuel (p.pscope l.pscope)) = true := by
+        rw [hchain] at hnd
+        simp only [noDedent, List.all_cons, Bool.and_eq_true] at hnd
+        exact hnd.2
+      refine walkUp_chain hS pos _ (by omega) hpk hplam hnd' ?_ _ (by rw [hfuel]; omega)
+      -- the next definition up starts before this one, hence before pos
+      intro n hn
+      have hn' : n = p.pscope l.pscope := by
+        rw [defChain_eq hS _ (by omega)] at hn
+        rcases WFS.def_parent hS hisdef with h1 | h1
+        · rw [h1] at hn; simp at hn
+        · unfold NProg.isDef at h1
+          cases hk : p.kind (p.pscope l.pscope) <;> simp [hk] at h1 hn <;> exact hn.symm
+      subst hn'
+      have hdp : p.isDef (p.pscope l.pscope) = true := mem_defChain_isDef p p.fuel _ _ (List.mem_of_mem_head? hn)
+      obtain ⟨scd, hscd, hkdd⟩ := isDef_scope hdp
+      -- W8 for the scope l.pscope, W9 for the leaf
+      have h8 := hLs _ (List.mem_of_getElem? hs)
+      simp only [hkd, Bool.not_true, Bool.false_or, Bool.and_eq_true, decide_eq_true_eq] at h8
+      have h8' := h8.2
+      rw [← pscope_of_scope hs, hscd] at h8'
+      simp only [hkdd, Bool.not_true, Bool.false_or, decide_eq_true_eq] at h8'
+      rw [hchain] at hW9
+      simp only [List.head?_cons, hs, Bool.and_eq_true, decide_eq_true_eq] at hW9
+      have h9 := hW9.1
+      simp only [startLt, hscd, decide_eq_true_eq]
+      simp only [Pos.lt_def, Pos.le_def] at h8' h9 hon1 ⊢
+      omega
+    · -- a body leaf (or a parameter name): its own scope chain
+      rw [if_neg hop]
+      rw [skipComps_fromScope hS _ _ _ hlp]
+      have sp := skipComps_spec hS l.pscope hlp
+      rw [← sp.2.2.1] at hnd ⊢
+      refine walkUp_chain hS pos _ (by omega) sp.2.1 (sp.2.2.2 hsegOK) hnd ?_ _ (by have := sp.1; omega)
+      intro n hn
+      rw [sp.2.2.1] at hn
+      have hdn : p.isDef n = true := mem_defChain_isDef p p.fuel _ _ (List.mem_of_mem_head? hn)
+      obtain ⟨scn, hscn, hkdn⟩ := isDef_scope hdn
+      rw [hn] at hW9
+      simp only [hscn, Bool.and_eq_true, decide_eq_true_eq, Bool.or_eq_true, Bool.not_eq_true',
+        beq_iff_eq, beq_eq_false_iff_ne, ne_eq] at hW9
+      obtain ⟨h9a, h9b⟩ := hW9
+      simp only [startLt, hscn, decide_eq_true_eq]
+      -- otherwise the leaf starts exactly where the definition starts: it is the keyword, a header leaf
+      by_cases hlt : scn.start < pos
+      · exact hlt
+      · exfalso
+        have heq : scn.start = l.start := by
+          rw [Pos.ext_iff']
+          simp only [Pos.lt_def, Pos.le_def] at h9a hon1 hlt
+          omega
+        rcases h9b with h1 | h1
+        · exact h1 heq
+        · obtain ⟨hpn, hnp⟩ := h1
+          apply hop
+          have hsame : p.scopes[l.pscope]? = some scn := by rw [hpn]; exact hscn
+          rw [hs] at hsame
+          simp only [Option.some.injEq] at hsame
+          rw [hsame]
+          have h11 := hLs _ (List.mem_of_getElem? hscn)
+          simp only [hkdn, Bool.not_true, Bool.false_or, Bool.and_eq_true, decide_eq_true_eq] at h11
+          simp only [hkdn, Bool.true_and, Bool.and_eq_true, decide_eq_true_eq, Bool.not_eq_true']
+          exact ⟨by rw [← heq]; exact h11.1, hnp⟩
 
 end JediModel.Props.C18
